@@ -20,7 +20,7 @@ static const LKey &lkey(const KeySpec &k, const std::string &attr, bool priv) {
 }
 
 // ------------------------------------------------------------------ JSON tree generator
-struct TreeStats { int depth = 0; bool nonascii = false, bigint = false, longstr = false, real = false; };
+struct TreeStats { int depth = 0; bool nonascii = false, bigint = false, longstr = false, real = false, nul = false; };
 static std::string gen_string(TreeStats &ts, bool key) {
   int kind = *rc::gen::weightedElement<int>({{6, 0}, {3, 1}, {1, 2}, {1, 3}});
   int len = kind == 3 && !key ? *UNI(2000, 8192) : *UNI(0, kind == 2 ? 40 : 12);
@@ -44,7 +44,10 @@ static J gen_json(int depth, TreeStats &ts, bool top) {
   switch (kind) {
   case 0: { int w = *rc::gen::weightedElement<int>({{5, 0}, {2, 1}, {1, 2}}); json_int_t v = w == 0 ? *UNI<long long>(-1000, 1000) : w == 1 ? *rc::gen::element<long long>(LLONG_MIN, LLONG_MAX, LLONG_MIN + 1, LLONG_MAX - 1, 1LL << 53, (1LL << 53) + 1, -(1LL << 53) - 1, 4102444800LL) : *UNI<long long>(LLONG_MIN / 2, LLONG_MAX / 2) * 2;
     if (v > (1LL << 53) || v < -(1LL << 53)) ts.bigint = true; return J(json_integer(v)); }
-  case 1: return J(json_string(gen_string(ts, false).c_str()));
+  case 1: { std::string sv = gen_string(ts, false);
+      // now and then a string with U+0000 inside (legal JSON text "\u0000"): the builder may refuse it; if it takes it, the token must still be readable
+      if (*UNI(0, 40) == 0) { sv.insert(sv.size() / 2, 1, '\0'); ts.nul = true; return J(json_stringn(sv.data(), sv.size())); }
+      return J(json_string(sv.c_str())); }
   case 2: { ts.real = true; double d = *rc::gen::element(0.5, -1.25, 1e10, 3.141592653589793, 1e-7, 1.7976931348623157e308, 5e-324, 123456789.123456789, -0.0, 2.5e15); return J(json_real(d)); }
   case 3: return J(json_boolean(*UNI(0, 2)));
   case 4: return J(json_null());
@@ -80,14 +83,32 @@ static std::string case_json(const Case &c) {
 }
 static bool gn_unsupported(const KA &ka) { return ka.alg == JWT_ALG_ES256K || ka.k->crv == "secp256k1"; }
 
+static bool has_nul(json_t *j) {
+  if (json_is_string(j)) return json_string_length(j) != strlen(json_string_value(j));
+  if (json_is_array(j)) { size_t i; json_t *e; json_array_foreach(j, i, e) if (has_nul(e)) return true; return false; }
+  if (json_is_object(j)) { const char *k; json_t *e; json_object_foreach(j, k, e) if (has_nul(e)) return true; return false; }
+  return false;
+}
 // mode bit 2 (value 4): builder and checker get their key from a callback (the key alone when it names its algorithm, key and algorithm otherwise)
 struct KeyCtx { const jwk_item_t *item; jwt_alg_t alg; void *inner; };
 static int key_cb(jwt_t *, jwt_config_t *c) { KeyCtx *x = (KeyCtx *)c->ctx; c->key = x->item; if (x->alg != JWT_ALG_NONE) c->alg = x->alg; return 0; }
 static int key_then_read_cb(jwt_t *jwt, jwt_config_t *c) { KeyCtx *x = (KeyCtx *)c->ctx; c->key = x->item; if (x->alg != JWT_ALG_NONE) c->alg = x->alg; jwt_config_t inner = *c; inner.ctx = x->inner; return read_cb(jwt, &inner); }
+// value of nesting depth d set by name (or inside a whole object): "" = refused by the builder or round-trips; else why not. *refused tells which.
+static std::string nest_case(int d, int kind, int hdr, int named, int prov, bool *refused) {
+  std::string js; for (int i = 0; i < d; i++) js += kind == 1 ? "{\"a\":" : "["; js += kind == 1 ? "1" : kind == 2 ? "\"s\"" : ""; for (int i = 0; i < d; i++) js += kind == 1 ? "}" : "]";
+  std::string whole = "{\"deep\":" + js + "}";
+  set_provider(prov); set_now(1700000000);
+  jwt_builder_t *b = jwt_builder_new(); jwt_value_t v = named ? val_json("deep", js.c_str(), 1) : val_json(nullptr, whole.c_str(), 1);
+  int sr = hdr ? jwt_builder_header_set(b, &v) : jwt_builder_claim_set(b, &v);
+  char *t = sr ? nullptr : jwt_builder_generate(b); std::string why;
+  if (t) { jwt_checker_t *ch = jwt_checker_new(); if (jwt_checker_verify(ch, t)) why = std::string("checker-rejects-generated-token:nesting-depth:") + (jwt_checker_error_msg(ch) ? jwt_checker_error_msg(ch) : ""); jwt_checker_free(ch); }
+  free(t); jwt_builder_free(b); if (refused) *refused = sr != 0; return why;
+}
 static std::string run_case(Case &c, bool *short_rs = nullptr) {
   CUR = c; const KA &ka = CELLS[c.cell];
-  J hdr = J::parse(c.header_json), clm = J::parse(c.claims_json);
+  J hdr = J::parse(c.header_json, JSON_ALLOW_NUL), clm = J::parse(c.claims_json, JSON_ALLOW_NUL);
   if (!hdr || !clm) return "harness-bad-json";
+  bool nul = has_nul(hdr.p) || has_nul(clm.p), refused_nul = false;
   set_provider(c.sprov); set_now((time_t)c.now);
   jwt_builder_t *b = jwt_builder_new();
   const LKey &priv = lkey(*ka.k, ka.attr, true);
@@ -98,17 +119,18 @@ static std::string run_case(Case &c, bool *short_rs = nullptr) {
   jwt_builder_enable_iat(b, c.iat); jwt_builder_time_offset(b, JWT_CLAIM_NBF, c.nbf_off); jwt_builder_time_offset(b, JWT_CLAIM_EXP, c.exp_off);
   std::string bad;
   auto put = [&](bool header, J &obj) {
-    if ((c.mode & 1) == 0) { std::string txt = obj.dump(JSON_COMPACT); jwt_value_t v = val_json(nullptr, txt.c_str(), 1); if (header ? jwt_builder_header_set(b, &v) : jwt_builder_claim_set(b, &v)) bad = "whole-object-set-refused"; return; }
+    if ((c.mode & 1) == 0) { std::string txt = obj.dump(JSON_COMPACT); jwt_value_t v = val_json(nullptr, txt.c_str(), 1); if (header ? jwt_builder_header_set(b, &v) : jwt_builder_claim_set(b, &v)) { if (nul) refused_nul = true; else bad = "whole-object-set-refused"; } return; }
     const char *k; json_t *val; json_object_foreach(obj.p, k, val) {
       jwt_value_t v; std::string txt;
-      if (json_is_integer(val)) v = val_int(k, (long)json_integer_value(val), 1); else if (json_is_string(val)) v = val_str(k, json_string_value(val), 1); else if (json_is_boolean(val)) v = val_bool(k, json_is_true(val), 1);
+      if (json_is_integer(val)) v = val_int(k, (long)json_integer_value(val), 1); else if (json_is_string(val) && !has_nul(val)) v = val_str(k, json_string_value(val), 1); else if (json_is_boolean(val)) v = val_bool(k, json_is_true(val), 1);
       else if (json_is_object(val) || json_is_array(val)) { txt = J(json_incref(val)).dump(JSON_COMPACT); v = val_json(k, txt.c_str(), 1); }
       else { J w(json_pack("{sO}", k, val)); txt = w.dump(JSON_COMPACT); v = val_json(nullptr, txt.c_str(), 1); }   // real/null members: through a one-member merge
-      if (header ? jwt_builder_header_set(b, &v) : jwt_builder_claim_set(b, &v)) bad = std::string("typed-set-refused:") + k;
+      if (header ? jwt_builder_header_set(b, &v) : jwt_builder_claim_set(b, &v)) { if (has_nul(val)) refused_nul = true; else bad = std::string("typed-set-refused:") + k; }
     }
   };
   put(true, hdr); put(false, clm);
   if (!bad.empty()) { jwt_builder_free(b); return bad; }
+  if (refused_nul) { jwt_builder_free(b); stats().cls("tree-with-U+0000-refused-by-the-builder"); return ""; }   // no token: nothing to verify
   if (c.token.empty()) {
     char *out = jwt_builder_generate(b);
     std::string berr = jwt_builder_error_msg(b) ? jwt_builder_error_msg(b) : "";
@@ -166,6 +188,7 @@ int main(int argc, char **argv) {
   if (!a.replay.empty()) {
     J j = J::parse(read_file(a.replay)); if (!j) return 2;
     auto gi = [&](const char *k) { return (long long)json_integer_value(json_object_get(j.p, k)); };
+    if (json_object_get(j.p, "kind")) { std::string w = nest_case((int)gi("depth"), (int)gi("value_kind"), (int)gi("header"), (int)gi("named"), (int)gi("prov"), nullptr); if (!w.empty()) fprintf(stderr, "replay: %s\n", w.c_str()); return w.empty() ? 0 : 3; }
     Case c; c.cell = (int)gi("cell"); if (c.cell >= (int)CELLS.size()) return 2; c.sprov = (int)gi("sign_provider"); c.vprov = (int)gi("verify_provider"); c.mode = (int)gi("mode"); c.now = gi("now"); c.iat = (int)gi("iat"); c.nbf_off = (long)gi("nbf_off"); c.exp_off = (long)gi("exp_off");
     c.header_json = from_latin1_utf8(json_string_value(json_object_get(j.p, "headers"))); c.claims_json = from_latin1_utf8(json_string_value(json_object_get(j.p, "claims")));
     const char *tk = json_string_value(json_object_get(j.p, "token")); std::string saved = tk ? from_latin1_utf8(tk) : "";
@@ -192,6 +215,15 @@ int main(int argc, char **argv) {
     }
   }
   if (!st.violations.empty()) return finish();
+  // ---- nesting at the parser's limit: a value the builder accepts must give a token a checker can read (refusing the value is fine)
+  { int idx = 0;
+    for (int d = 2040; d <= 2052; d++) for (int kind = 0; kind < 3; kind++) for (int hdr = 0; hdr < 2; hdr++) for (int named = 0; named < 2; named++) for (int prov = 0; prov < 2; prov++) {
+      if ((idx++ % a.nworkers) != a.worker) continue;
+      bool refused = false; std::string why = nest_case(d, kind, hdr, named, prov, &refused); int sr = refused;
+      st.evaluations++; st.cls(sr ? "nesting-limit:value-refused" : "nesting-limit:token-round-trips"); if (!sr) st.nontrivial(mix(mix(d, kind), mix(hdr * 2 + named, prov)));
+      if (!why.empty() && !st.is_known("C05:" + why)) { st.violation("C05:" + why.substr(0, 60), "a JSON value of nesting depth " + std::to_string(d) + " was accepted by the builder but the token cannot be parsed", "{\"kind\":\"nesting\",\"depth\":" + std::to_string(d) + ",\"value_kind\":" + std::to_string(kind) + ",\"header\":" + std::to_string(hdr) + ",\"named\":" + std::to_string(named) + ",\"prov\":" + std::to_string(prov) + "}"); break; }
+    } }
+  if (!st.violations.empty()) return finish();
   uint64_t n = a.thorough() ? 12000 : 450;
   if (a.kv.count("cases")) n = strtoull(a.kv["cases"].c_str(), 0, 10);
   std::string params = "seed=" + std::to_string(a.seed * 1000 + a.worker) + " max_success=" + std::to_string(n) + " max_size=100";
@@ -211,7 +243,7 @@ int main(int argc, char **argv) {
     bool sh = false; std::string r = run_case(c, &sh);
     st.evaluations++; st.cls(std::string("signer=") + prov_name(c.sprov) + ",verifier=" + prov_name(c.vprov)); st.cls(std::string("alg:") + jwt_alg_str(ka.alg));
     bool nt = sh || ts.depth >= 3 || ts.nonascii || ts.bigint || c.sprov != c.vprov; (void)hd;
-    if (nt) { st.nontrivial(fnv(c.token)); if (ts.depth >= 3) st.cls("tree-depth>=3"); if (ts.nonascii) st.cls("tree-non-ascii"); if (ts.bigint) st.cls("tree-int-beyond-2^53"); if (ts.longstr) st.cls("tree-long-string"); if (ts.real) st.cls("tree-real"); if (c.sprov != c.vprov) st.cls("cross-provider"); }
+    if (nt) { st.nontrivial(fnv(c.token)); if (ts.depth >= 3) st.cls("tree-depth>=3"); if (ts.nonascii) st.cls("tree-non-ascii"); if (ts.bigint) st.cls("tree-int-beyond-2^53"); if (ts.longstr) st.cls("tree-long-string"); if (ts.real) st.cls("tree-real"); if (ts.nul) st.cls("tree-with-U+0000"); if (c.sprov != c.vprov) st.cls("cross-provider"); }
     if (st.want_sample()) st.sample(case_json(c));
     if (!r.empty()) { std::string sig = "C05:" + r; if (st.is_known(sig)) { st.known_hits[sig]++; return; } lastfail = c; lastwhy = r; v::fail_seen()++; RC_FAIL(r); }
   });
